@@ -919,8 +919,11 @@ class Merger:
             self.logger.debug(
                 "Merged document is now:", prefix="Merger::merge_with:  ",
                 data=self.data, footer="     ***** ***** *****")
-            if isinstance(rhs, (dict, list, CommentedSet, set)):
-                # Only Scalar values need further processing
+            if (insert_at.is_root
+                and isinstance(rhs, (dict, list, CommentedSet, set))
+            ):
+                # Only Scalar values -- and a merge point below the root,
+                # which is yet to be created -- need further processing
                 return
 
         # Resolve any anchor conflicts
